@@ -300,7 +300,15 @@ pub fn run_c14(p: &mut Prng, t: Tier, i: usize, sink: &mut Sink) {
             // cheap sites more often
             let site = if p.chance(2, 3) { SITES[p.below(5) as usize] } else { SITES[5 + p.below(6) as usize] };
             let sc = rng_json(&uniform_script(p, 1));
-            site_call(p, &mut w, &format!("c{k}"), site, sc);
+            let inputs = p.fork();
+            site_call(&mut inputs.clone(), &mut w, &format!("c{k}"), site, sc);
+            // history: the very same inputs (same key, message, identity, object) once more with a
+            // different script - a scalar cached per input or per object would be reused
+            if p.chance(1, 3) {
+                let sc2 = rng_json(&uniform_script(p, 1));
+                w.bump("history.same-inputs-again");
+                site_call_mode(&mut inputs.clone(), &mut w, &format!("c{k}"), site, sc2, 2);
+            }
         }
         if i == 0 {
             w.samples.push(json!({"schedule": w.history.iter().take(14).cloned().collect::<Vec<_>>() }));
